@@ -71,7 +71,7 @@ def gen_c01(rnd, n, thorough=False):
                 lines.append("open f")
                 tags['ops']['reopen'] = tags['ops'].get('reopen', 0) + 1
             else:
-                now = min(now + R + rnd.randint(0, R), TMAX - 2 * retentions(layout)[-1] - 1)
+                now = min(now + R + rnd.randint(0, R), (TMAX if now < TMAX else 2 ** 32 - 8) - 2 * retentions(layout)[-1] - 1)
                 tags['ops']['jump'] = tags['ops'].get('jump', 0) + 1
             _observe(rnd, lines, layout, list(range(0, a + 1)), now, nwin=3)
         cases.append({'id': 'c01-%d' % c, 'lines': lines, 'tags': tags})
@@ -184,6 +184,10 @@ def gen_c03(rnd, n, thorough=False):
                 age = boundary_age(rnd, layout)
                 if rnd.chance(0.1):
                     age = -rnd.randint(1, 3)
+                if rnd.chance(0.08):
+                    # ancient timestamps: the age as a signed 32-bit difference is negative or wraps
+                    age = rnd.pick([now - 1, now - rnd.randint(1, 10 ** 6), 2 ** 31 - 1, 2 ** 31, 2 ** 31 + rnd.randint(0, 100), now // 2])
+                    age = min(age, now - 1)
                 if any(abs(age - R) <= 1 for R in rets):
                     tags['boundary_ages'] += 1
                 lines.append("upd f %d %d %016x %d" % (ident, max(now - age, 1), value(rnd, nan_ok), now))
